@@ -307,6 +307,8 @@ def coq_eval(name, vtext, timeout=1800):
     """compile a generated case file in .build/cases and return coqc's output"""
     d = os.path.join(BUILD, "cases")
     os.makedirs(d, exist_ok=True)
+    if not name.endswith("_p%d" % os.getpid()):
+        name = "%s_p%d" % (name, os.getpid())   # two runs of one property at the same time must not share case files
     p = os.path.join(d, name + ".v")
     open(p, "w").write(vtext)
     for attempt in range(3):
@@ -314,7 +316,7 @@ def coq_eval(name, vtext, timeout=1800):
         if rc in (0, 1):  # anything else (killed by the OOM killer, signal) is retried: not a verdict about the model
             break
         time.sleep(5 * (attempt + 1))
-    for ext in (".vo", ".vok", ".vos", ".glob"):
+    for ext in ((".vo", ".vok", ".vos", ".glob") if os.environ.get("VERIF_KEEP_CASES") else (".vo", ".vok", ".vos", ".glob", ".v")):
         try:
             os.remove(os.path.join(d, name + ext))
         except OSError:
